@@ -41,6 +41,12 @@ func (c vxC18Case) String() string {
 	case 2:
 		return fmt.Sprintf("file %v -> chown/chmod -> %v, %s", c.A, c.B, how)
 	}
+	switch c.Part {
+	case 4:
+		return fmt.Sprintf("file %v reached through <symlinked dir>/../tool", c.A)
+	case 5:
+		return fmt.Sprintf("file %v named by the relative path tools/probe", c.A)
+	}
 	return fmt.Sprintf("symlink re-pointed from file %v to file %v", c.A, c.B)
 }
 
@@ -176,6 +182,46 @@ func (e *vxC18Env) run(c vxC18Case) {
 		e.judge(c, "first", c.A, e.exec(filepath.Join(root, "conf", "plugins")+"/../tool", marker))
 		_ = os.Remove(decoyMarker)
 		_ = os.RemoveAll(root)
+	case 5:
+		// relative path with a directory part, as in `exec: tools/probe`: the file that is CHECKED (<cwd>/tools/probe, state A)
+		// must be the file that RUNS. A decoy with the opposite verdict sits at <cwd>/tools/tools/probe, where a command that
+		// is started from the executable's own directory would look for the same relative path.
+		root := filepath.Join(e.dir, base+".d")
+		if err := os.MkdirAll(filepath.Join(root, "tools", "tools"), 0o755); err != nil {
+			panic(err)
+		}
+		decoyMarker := filepath.Join(e.dir, base+".decoy")
+		decoy := filepath.Join(root, "tools", "tools", "probe")
+		if err := os.WriteFile(decoy, []byte("#!/bin/sh\n: > "+decoyMarker+"\necho decoy\n"), 0o755); err != nil {
+			panic(err)
+		}
+		ds := vcmd.PermState{Uid: 0, Gid: 0, Mode: 0o755}
+		if vcmd.Allowed(c.A.Uid, c.A.Gid, c.A.Mode) {
+			ds = vcmd.PermState{Uid: 1234, Gid: 1234, Mode: 0o777}
+		}
+		if err := ds.Apply(decoy); err != nil {
+			panic(err)
+		}
+		file := filepath.Join(root, "tools", "probe")
+		if err := os.WriteFile(file, []byte("#!/bin/sh\n: > "+marker+"\necho ran\n"), 0o700); err != nil {
+			panic(err)
+		}
+		if err := c.A.Apply(file); err != nil {
+			panic(err)
+		}
+		old, _ := os.Getwd()
+		if err := os.Chdir(root); err != nil {
+			panic(err)
+		}
+		o := e.exec("tools/probe", marker)
+		_ = os.Chdir(old)
+		e.judge(c, "first", c.A, o)
+		if _, err := os.Stat(decoyMarker); err == nil {
+			e.rep.Violate(mc.Violation{Signature: "C18 relative path: a file other than the checked one was executed",
+				Detail: fmt.Sprintf("exec 'tools/probe' from %s: checked file %v, but tools/tools/probe (%v) ran", root, c.A, ds), Replay: c})
+		}
+		_ = os.Remove(decoyMarker)
+		_ = os.RemoveAll(root)
 	case 3:
 		fa := e.script(base+"a", marker, c.A)
 		fb := e.script(base+"b", marker, c.B)
@@ -252,6 +298,12 @@ func TestVX_C18(t *testing.T) {
 		idx++
 		if mc.Mine(idx) {
 			e.run(vxC18Case{Part: 4, A: a})
+			n4++
+		}
+		// part 5: relative path with a directory part
+		idx++
+		if mc.Mine(idx) {
+			e.run(vxC18Case{Part: 5, A: a})
 			n4++
 		}
 	}
